@@ -24,7 +24,7 @@ var nondetCalls = map[string]string{
 	"runtime.NumGoroutine": "scheduler", "runtime.NumCPU": "host", "runtime.GOMAXPROCS": "host",
 	"reflect.(Value).MapKeys": "map order", "reflect.(Value).MapRange": "map order",
 	"sync.(Map).Range": "map order",
-	"maps.Keys":          "map order (iterator)", "maps.Values": "map order (iterator)", "maps.All": "map order (iterator)",
+	"maps.Keys":        "map order (iterator)", "maps.Values": "map order (iterator)", "maps.All": "map order (iterator)",
 	"golang.org/x/exp/maps.Keys": "map order", "golang.org/x/exp/maps.Values": "map order",
 }
 
